@@ -174,6 +174,9 @@ func (u *Unit) callMods(c *ssa.CallCommon, m *modSet, seen map[*ssa.Function]boo
 		case "append", "copy":
 			if sl, ok := c.Args[0].Type().Underlying().(*types.Slice); ok {
 				m.classes[elemClass(sl.Elem())] = true
+				if b.Name() == "copy" && sortOf(sl.Elem()) == SInt {
+					m.pats = append(m.pats, matcher{prefix: "Enc."})
+				}
 			}
 		case "delete":
 			mt := c.Args[0].Type().Underlying().(*types.Map)
@@ -243,15 +246,18 @@ func (u *Unit) specMods(spec *UnitSpec, m *modSet) {
 			m.ghosts[it] = true
 		}
 	}
-	if !spec.ModSet {
-		if !spec.Pure {
-			m.all = true
-			m.excepts = append(m.excepts, spec.Preserves)
-			m.exceptPkg = append(m.exceptPkg, spec.Pkg)
-		}
-		return
+	switch {
+	case len(spec.Preserves) > 0:
+		m.all = true
+		m.excepts = append(m.excepts, spec.Preserves)
+		m.exceptPkg = append(m.exceptPkg, spec.Pkg)
+	case !spec.ModSet && !spec.Pure:
+		m.all = true
+		m.excepts = append(m.excepts, nil)
+		m.exceptPkg = append(m.exceptPkg, spec.Pkg)
+	default:
+		m.pats = append(m.pats, itemsMatchers(spec.Modifies, spec.Pkg)...)
 	}
-	m.pats = append(m.pats, itemsMatchers(spec.Modifies, spec.Pkg)...)
 }
 
 func (u *Unit) fnMods(fn *ssa.Function, m *modSet, seen map[*ssa.Function]bool) {
@@ -280,6 +286,29 @@ func (f *Frame) loopMods(li *loopInfo) *modSet {
 	// ghost assignments at at-points inside the loop are found by name: any ghostset in the unit spec
 	if f.u.spec != nil {
 		for _, at := range f.u.spec.Ats {
+			inside := true
+			where := at.Where
+			if f.prefix != "" && strings.HasPrefix(where, f.prefix+" ") {
+				where = strings.TrimPrefix(where, f.prefix+" ")
+			} else if f.prefix != "" || strings.HasPrefix(where, "$") || strings.HasPrefix(where, "@") {
+				where = "" // anchor of another (inlined) frame: conservatively inside
+			}
+			if where != "" {
+				w := strings.TrimSuffix(where, " before")
+				if w == "return" || w == "entry" {
+					inside = w == "return" // a return inside the loop leaves it; harmless to include
+				} else {
+					inside = false
+					for ins, name := range f.callOrd {
+						if name == w && li.body[ins.Block()] {
+							inside = true
+						}
+					}
+				}
+			}
+			if !inside {
+				continue
+			}
 			for _, c := range at.Clauses {
 				if c.Kind == "ghostset" {
 					m.ghosts[c.Ghost] = true
